@@ -127,11 +127,12 @@ def lcg_records(n, seed, minlen, maxlen, with_n):
     return recs
 
 
-def write_inputs(d, name, recs):
+def write_inputs(d, name, recs, ids=None):
     """writes name.fa, name.fq, name.fa.gz, name.fq.gz; returns dict of paths"""
-    fa = b"".join(b">r%d desc %d\n%s\n" % (i, i, r) for i, r in enumerate(recs))
+    ids = ids or [b"r%d" % i for i in range(len(recs))]
+    fa = b"".join(b">%s desc %d\n%s\n" % (ids[i], i, r) for i, r in enumerate(recs))
     # quality lines may legally start with '@' or '+'
-    fq = b"".join(b"@r%d desc\n%s\n+\n%s\n" % (i, r, (b"@+I>"[i % 4:i % 4 + 1] + b"I" * len(r))[:len(r)]) for i, r in enumerate(recs))
+    fq = b"".join(b"@%s desc\n%s\n+\n%s\n" % (ids[i], r, (b"@+I>"[i % 4:i % 4 + 1] + b"I" * len(r))[:len(r)]) for i, r in enumerate(recs))
     paths = {}
     for suffix, data in ((".fa", fa), (".fq", fq)):
         p = os.path.join(d, name + suffix)
@@ -388,6 +389,11 @@ def c15_others(rep, d, inputs, tier):
                 for preset in ("s2m", "m2s"):
                     for t in (0, 1, 2, 16):
                         jobs.append(("min", name, {"m": m, "w": w, "preset": preset, "t": t}))
+    for m in (7, 10):
+        for w in (0, 12, 31):
+            for preset in ("s2m", "m2s"):
+                for t in (1, 4):
+                    jobs.append(("min", "dup", {"m": m, "w": w, "preset": preset, "t": t}))
     # ctr
     for name in ("in5", "in37"):
         for k in (10, 21, 31):
@@ -498,6 +504,20 @@ def c15_others(rep, d, inputs, tier):
                     rep.violation("acgt-changes-more-than-rendering", 5, "ctr %s k=%d: --acgt lists different k-mers/counts than the numeric output" % (name, o["k"]), "c15_rel", {"kind": kind, "name": name, "o": o})
                 elif b != pm.counts(recs, o["k"]):
                     rep.violation("counts-vs-model", 5, "ctr %s k=%d: counts differ from the model" % (name, o["k"]), "c15_rel", {"kind": kind, "name": name, "o": o})
+        if kind == "min" and o["preset"] == "m2s" and res is not None:
+            s2m = libcache.get(("min", name, tuple(sorted({**o, "preset": "s2m"}.items()))))
+            if s2m is not None:
+                rep.ev(1, 1)
+                inv = {}
+                for line in lines_of(s2m):
+                    f = line.rstrip(b"\t").split(b"\t")
+                    for hit in f[1:]:
+                        mm, _, span = hit.partition(b":")
+                        a, _, b = span.partition(b"-")
+                        inv.setdefault(mm, []).append(b'"%s", %s, %s' % (f[0], a, b))
+                inv = {k: sorted(v) for k, v in inv.items()}
+                if m2s_canon(res) != inv:
+                    rep.violation("m2s-is-not-the-inversion-of-s2m", 5, "min %s %r: the m2s preset does not list exactly the (id, start, end) windows that the s2m preset lists per minimiser (as multisets)" % (name, o), "c15_rel", {"kind": kind, "name": name, "o": o})
         if kind == "cov" and o["preset"] != "spc":
             spc = libcache.get(("cov", name, tuple(sorted({**o, "preset": "spc"}.items()))))
             if spc is not None and res is not None and res[0] is not None:
@@ -597,6 +617,10 @@ def c15(tier):
     }
     for name in list(inputs):
         inputs[name] = (write_inputs(d, name, inputs[name][1]), inputs[name][1])
+    # records that come twice (and as reverse complement) under ids that come twice: mates of a pair, duplicated reads
+    base = lcg_records(4, 51, 40, 60, True)
+    dup = [base[0], base[0], base[1], bytes(reversed(base[1])).translate(bytes.maketrans(b"ACGT", b"TGCA")), base[2], base[3], base[2], base[0]]
+    inputs["dup"] = (write_inputs(d, "dup", dup, ids=[b"p1", b"p1", b"p2", b"p2", b"p3", b"p3", b"p3", b"p1"]), dup)
     c15_oligo(rep, d, inputs, tier)
     c15_refusals(rep, d, inputs)
     c15_others(rep, d, inputs, tier)
@@ -717,7 +741,7 @@ def c16_check(variant, recs, t, wd, final_newline=True):
         args = ["ctr", "-i", inp, "-o", out, "-k", str(kk)]
     args += ["-t", str(t)]
     rc, so, err, to = cli(args, stdin=stdin)
-    cmdline = "kmertools " + " ".join(args) + " on records %r" % (recs,)
+    cmdline = "kmertools " + " ".join(args) + (" on records %r" % (recs,) if len(recs) <= 12 else " on %d records %r..." % (len(recs), recs[:6]))
     if to:
         return ("hang", "%s: no exit within %d s" % (cmdline, TIMEOUT))
     has_bad = any(pm.cls(b) is None for r in recs for b in r)
@@ -833,10 +857,24 @@ def c16(tier):
             if l and name in ("oligo", "oligo-c", "oligo-stdin", "cgr", "kcgr", "cov", "s2m-w9", "m2s-w0", "ctr"):
                 cases.append((variant, l, 2, False))
 
+    # record counts at and around the powers of two a writer could plausibly chunk its work by (and the 10 000 of
+    # the progress messages): degenerate records only, three shapes in rotation
+    counts = [1023, 1024, 1025, 4095, 4096, 4097, 8192] + ([2048, 10000, 16384, 65535, 65536, 65537] if tier == "thorough" else [])
+    for variant in C16_VARIANTS:
+        names = sorted(shapes_for(variant[1], variant[2]))
+        degenerate = [n for n in names if n != "ordinary"][:6]
+        for ci, n in enumerate(counts):
+            rot = tuple(degenerate[(ci + j) % len(degenerate)] for j in range(3))
+            for t in ((1, 4) if tier == "thorough" else (4,)):
+                cases.append((variant, ("*%d" % n,) + rot, t, True))
+
     def do(case):
         variant, l, t, final_nl = case
         sh = shapes_for(variant[1], variant[2])
-        recs = [sh[x] for x in l]
+        if l and l[0].startswith("*"):
+            recs = [sh[l[1 + i % (len(l) - 1)]] for i in range(int(l[0][1:]))]
+        else:
+            recs = [sh[x] for x in l]
         wd = fresh_dir("c16")
         try:
             res = c16_check(variant, recs, t, wd, final_nl)
@@ -845,7 +883,7 @@ def c16(tier):
         rep.ev(1, 1)
         rep.outcome("%s:%s" % (variant[0], "ok" if res is None else res[0]))
         if res is not None:
-            rep.violation(res[0], sum(len(r) + 1 for r in recs) + 10 * len(recs), res[1] + ("" if final_nl else " [input without final line feed]"), "c16", {"variant": list(variant), "shapes": list(l), "t": t, "final_newline": final_nl})
+            rep.violation(res[0], sum(len(r) + 1 for r in recs[:50]) + 10 * len(recs), res[1] + ("" if final_nl else " [input without final line feed]"), "c16", {"variant": list(variant), "shapes": list(l), "t": t, "final_newline": final_nl})
         shutil.rmtree(wd, ignore_errors=True)
 
     pmap(do, cases)
@@ -913,6 +951,9 @@ def c17_runs(inputs):
         "oligo big k3 -c": (cli_run(["comp", "oligo", "-i", big, "-o", "@/vec.txt", "-k", "3", "-c", "-t", "3"]), ["vec.txt"]),
         "oligo small k3 -c csv": (cli_run(["comp", "oligo", "-i", small, "-o", "@/vec.txt", "-k", "3", "-c", "-p", "csv"]), ["vec.txt"]),
         "oligo big k4 lib mmap": (lib_run("oligo", **{"in": big, "out": "@/vec.txt", "k": 4, "writer": "mmap", "threads": 3}), ["vec.txt"]),
+        # the same job at other memory ceilings and thread counts (many batches): same bytes as "oligo big k3 -c"
+        "oligo big k3 -c lib 1 thread 60-base batches": (lib_run("oligo", **{"in": big, "out": "@/vec.txt", "k": 3, "counts": 1, "writer": "batch", "threads": 1, "memory": 60}), ["vec.txt"]),
+        "oligo big k3 -c lib 4 threads 150-base batches": (lib_run("oligo", **{"in": big, "out": "@/vec.txt", "k": 3, "counts": 1, "writer": "batch", "threads": 4, "memory": 150}), ["vec.txt"]),
         "oligo no records": (cli_run(["comp", "oligo", "-i", none, "-o", "@/vec.txt", "-k", "3"]), ["vec.txt"]),
         "oligo no records -c": (cli_run(["comp", "oligo", "-i", none, "-o", "@/vec.txt", "-k", "3", "-c"]), ["vec.txt"]),
     }
@@ -922,6 +963,8 @@ def c17_runs(inputs):
         "kcgr small k3": (cli_run(["comp", "cgr", "-i", small, "-o", "@/vec.txt", "-k", "3", "-v", "16"]), ["vec.txt"]),
         "kcgr big k4 -c": (cli_run(["comp", "cgr", "-i", big, "-o", "@/vec.txt", "-k", "4", "-c", "-t", "2"]), ["vec.txt"]),
         "oligo small k3 (same path)": (cli_run(["comp", "oligo", "-i", small, "-o", "@/vec.txt", "-k", "3"]), ["vec.txt"]),
+        "kcgr big k4 -c lib 1 thread 60-base batches": (lib_run("kcgr", **{"in": big, "out": "@/vec.txt", "k": 4, "vecsize": 16, "counts": 1, "threads": 1, "memory": 60}), ["vec.txt"]),
+        "cgr big lib 3 threads 30-base batches": (lib_run("cgr", **{"in": clean_b, "out": "@/vec.txt", "vecsize": 1, "threads": 3, "memory": 30}), ["vec.txt"]),
         "cgr no records": (cli_run(["comp", "cgr", "-i", none, "-o", "@/vec.txt"]), ["vec.txt"]),
         "kcgr no records": (cli_run(["comp", "cgr", "-i", none, "-o", "@/vec.txt", "-k", "3"]), ["vec.txt"]),
     }
@@ -953,6 +996,15 @@ def c17_runs(inputs):
     return groups
 
 
+# runs that differ only in thread count / memory ceiling: their results in fresh locations must be equal
+C17_EQUIVALENT = [
+    ["oligo big k3 -c", "oligo big k3 -c lib 1 thread 60-base batches", "oligo big k3 -c lib 4 threads 150-base batches"],
+    ["kcgr big k4 -c", "kcgr big k4 -c lib 1 thread 60-base batches"],
+    ["cgr big", "cgr big lib 3 threads 30-base batches"],
+    ["ctr small k10 (cli)", "ctr small k10 few chunks keep temp", "ctr small k10 tiny ceiling delete"],
+]
+
+
 def c17(tier):
     rep = Rep()
     d = fresh_dir("c17in")
@@ -976,6 +1028,13 @@ def c17(tier):
                 rep.violation("run-failed", 1, "%s in a fresh location: exit %s stderr %r" % (rname, rc, err[-300:]), "c17", {"group": gname, "history": [rname]})
             fresh[rname] = {f: canon_file(f, read(os.path.join(loc, f)) or b"") if os.path.exists(os.path.join(loc, f)) else None for f in results}
             rep.ev(1, 1)
+        for cls in C17_EQUIVALENT:
+            if cls[0] in fresh:
+                for other in cls[1:]:
+                    rep.ev(1, 1)
+                    for f in runs[cls[0]][1]:
+                        if fresh[other].get(f) != fresh[cls[0]][f]:
+                            rep.violation("ceiling-or-threads-change-the-result", 1, "in fresh locations, %r and %r (same job, other memory ceiling / thread count) leave different %s" % (cls[0], other, f), "c17", {"group": gname, "history": [other]})
         # initial states: empty location, and a location pre-filled with longer garbage under every documented name
         states = {}  # canon -> (saved dir, history)
         init_empty = fresh_dir("st")
